@@ -29,10 +29,13 @@ class Outcome:
         self.exc = exc
 
 
-def feasible(state, timeout_ms=300):
+FEASIBLE_MS = 300     # per-function override: contract ghost['feasible_ms'] (set by Executor)
+
+
+def feasible(state, timeout_ms=None):
     """cheap pruning of infeasible paths; `unknown` counts as feasible"""
     s = z3.Solver()
-    s.set('timeout', timeout_ms)
+    s.set('timeout', int(timeout_ms or FEASIBLE_MS))
     # E-matching only: with quantified facts in the path condition the default configuration
     # spends the whole timeout in model-based instantiation and answers `unknown` anyway
     # (measured: 0.3 s per branch, 25 s for one slice); `unknown` counts as feasible
@@ -55,8 +58,15 @@ def root_name(node):
 
 
 def modified_names(stmts, registry=None, module=None):
-    """names assigned, and names of containers mutated, anywhere in stmts"""
+    """names assigned, and names of containers mutated, anywhere in stmts.
+
+    Aliasing: `x = y[k]` / `x = y.f` / `x = y` / `for x in y` make x a possible alias of (a part
+    of) y; when x is then mutated in place (store through a subscript / attribute, mutator method)
+    y counts as mutated too.  The names that are mutated *only* through such an alias are
+    reported in `mutated.alias_only` (their length / key set cannot change that way)."""
     assigned, mutated = set(), set()
+    deep = set()          # mutated in place (not merely re-bound / augmented by name)
+    alias_edges = []      # (alias name, root name of the aliased expression)
 
     class V(ast.NodeVisitor):
         def visit_FunctionDef(self, n):
@@ -75,12 +85,20 @@ def modified_names(stmts, registry=None, module=None):
                 r = root_name(t)
                 if r:
                     mutated.add(r)
+                    deep.add(r)
             elif isinstance(t, ast.Starred):
                 self.target(t.value)
+
+        def alias(self, t, value):
+            if isinstance(t, ast.Name) and isinstance(value, (ast.Name, ast.Subscript, ast.Attribute)):
+                r = root_name(value)
+                if r and r != t.id:
+                    alias_edges.append((t.id, r))
 
         def visit_Assign(self, n):
             for t in n.targets:
                 self.target(t)
+                self.alias(t, n.value)
             self.generic_visit(n)
 
         def visit_AugAssign(self, n):
@@ -95,6 +113,7 @@ def modified_names(stmts, registry=None, module=None):
 
         def visit_For(self, n):
             self.target(n.target)
+            self.alias(n.target, n.iter)
             self.generic_visit(n)
 
         def visit_With(self, n):
@@ -121,6 +140,7 @@ def modified_names(stmts, registry=None, module=None):
                 r = root_name(n.func.value)
                 if r:
                     mutated.add(r)
+                    deep.add(r)
             # arguments of callees that mutate them / of unknown callees
             for a in list(n.args) + [k.value for k in n.keywords]:
                 r = root_name(a) if isinstance(a, (ast.Name, ast.Subscript, ast.Attribute)) else None
@@ -136,8 +156,22 @@ def modified_names(stmts, registry=None, module=None):
     for s in stmts:
         v.visit(s)
     args = {m[1] for m in mutated if isinstance(m, tuple)}
-    mutated = {m for m in mutated if not isinstance(m, tuple)}
+    mutated = _MutSet(m for m in mutated if not isinstance(m, tuple))
+    direct = set(mutated)
+    changed = True
+    while changed:
+        changed = False
+        for a, r in alias_edges:
+            if a in deep and r not in deep:
+                deep.add(r)
+                mutated.add(r)
+                changed = True
+    mutated.alias_only = frozenset(mutated - direct - assigned)
     return assigned, mutated, args
+
+
+class _MutSet(set):
+    alias_only = frozenset()
 
 
 def escaping_jump(node):
@@ -184,6 +218,8 @@ class Executor:
         self.ctx = ctx
         self.ev = Evaluator(ctx)
         self.inline = self._index_inline_asserts()
+        global FEASIBLE_MS
+        FEASIBLE_MS = int((ctx.contract.ghost.get('feasible_ms') if ctx.contract else None) or 300)
 
     # ---- assertions at program points (contract field `inline_asserts`) ---------------------
     def _index_inline_asserts(self):
@@ -321,9 +357,28 @@ class Executor:
         s_raise.assume(b)
         outs.append(Outcome('raise', s_raise, exc='Exception'))
         state.assume(z3.Not(b))
+        # `a[i] = v` / `a[i] op= v` (abstracted because of v or i): the store changes elements of the
+        # list / array `a`, never its length
+        same_len = {}
+        if isinstance(node, (ast.Assign, ast.AugAssign)):
+            tgts = node.targets if isinstance(node, ast.Assign) else [node.target]
+            if all(isinstance(t, ast.Subscript) and isinstance(t.value, ast.Name) for t in tgts):
+                for t in tgts:
+                    nm = t.value.id
+                    if nm in state.env and nm not in assigned:
+                        try:
+                            cur = read_ref(state, state.env[nm])
+                        except Exception:
+                            continue
+                        if cur.ty[0] == 'arr' or (cur.ty[0] == 'list' and not isinstance(t.slice, ast.Slice)):
+                            same_len[nm] = seq_len(cur)
         for n in assigned | mutated | (args & set(state.env)):
             if n in assigned or n in mutated:
                 self.havoc_name(state, n, keep_type=(n in tracked))
+                if n in same_len and n in tracked:
+                    nv = read_ref(state, state.env[n])
+                    if nv.ty[0] in ('list', 'arr'):
+                        state.assume(seq_len(nv) == same_len[n])
             elif n in state.env:
                 v = read_ref(state, state.env[n])
                 if T.is_mutable(v.ty) and n in tracked:
@@ -775,6 +830,22 @@ class Executor:
                     if kind == 'qualified' and (name in numpy_prims.QUALIFIED or name in prims.QUALIFIED
                                                 or name in DROPPED_CALLS):
                         continue
+                    if kind == 'method' and name in ('add', 'append', 'discard', 'remove', 'index',
+                                                     'count', 'get') and isinstance(n.func, ast.Attribute):
+                        # a modelled method of a builtin container stores / compares its argument
+                        # and never mutates it: no havoc of the argument's root when the receiver
+                        # is (rooted in) a list / set / dict known before the loop
+                        r0 = root_name(n.func.value)
+                        try:
+                            if r0 and isinstance(n.func.value, ast.Name):
+                                hint = ctx.hint_type(r0)      # declared in the contract's `locals`
+                                if (r0 in state.env and read_ref(state, state.env[r0]).ty[0]
+                                        in ('list', 'set', 'dict')) or \
+                                        (r0 not in state.env and hint is not None
+                                         and hint[0] in ('list', 'set', 'dict')):
+                                    continue
+                        except Exception:
+                            pass
                     for a in list(n.args) + [k.value for k in n.keywords]:
                         r = root_name(a) if isinstance(a, (ast.Name, ast.Subscript, ast.Attribute)) else None
                         if r and r in state.env:
@@ -812,6 +883,15 @@ class Executor:
                     ty = self.infer_container_type(n, body, s, cur)
                 nv = fresh(ty, 'lp_' + n)
                 s.assume(*wf(nv))
+                if n in getattr(mutated, 'alias_only', ()) and nv.ty == cur.ty:
+                    # only parts of n are mutated in place (through an alias): its own shape
+                    # (length / key set) cannot change that way
+                    if nv.ty[0] in ('list', 'arr'):
+                        s.assume(seq_len(nv) == seq_len(cur))
+                    elif nv.ty[0] in ('dict', 'set'):
+                        kq = z3.Const(fresh_name('fk'), T.sort_of(nv.ty[1]))
+                        s.assume(z3.ForAll([kq], membership_array(nv)[kq] == membership_array(cur)[kq]),
+                                 card_of(nv) == card_of(cur))
                 if ref.path:
                     write_ref(s, ref, nv)
                 else:
@@ -962,7 +1042,7 @@ class Executor:
         state.ghost = saved
         pre_env = {n: (state.env.get(n), state.asg.get(n)) for n in tnames}
         s, assigned, mutated = self.loop_frame(node, state, extra_assigned=())
-        bad = it.roots & (assigned | mutated)
+        bad = it.roots & ((assigned | mutated) - set(getattr(mutated, 'alias_only', ())))
         if bad:
             raise Unsupported(f"loop at line {node.lineno} modifies the container it iterates over: {bad}")
         gh = it.ghost_havoc(s)
@@ -1497,6 +1577,12 @@ def _merge_states(states, base_len):
         except Unsupported:
             _MERGE_WHY.append(4)
             return None
+        if T.is_mutable(ty) and _term_size(term, 60) >= 60:
+            # a big merged container value: give it a name (one defining equation) instead of
+            # repeating the ite / constructor / store tower at every later use
+            named = fresh(ty, 'merged')
+            out.pc.append(named.term == term)
+            term = named.term
         out.cells[cid] = SymVal(ty, term)
     for n in names:
         refs = [s.env[n] for s in states]
@@ -1535,6 +1621,20 @@ def _merge_states(states, base_len):
                 a = z3.If(c, x, a)
             out.asg[n] = z3.simplify(a)
     return out
+
+
+def _term_size(t, limit):
+    """number of distinct sub-terms of t, counted up to `limit`"""
+    seen, stack = set(), [t]
+    while stack and len(seen) < limit:
+        e = stack.pop()
+        i = e.get_id()
+        if i in seen:
+            continue
+        seen.add(i)
+        if z3.is_app(e):
+            stack.extend(e.children())
+    return len(seen)
 
 
 def _same_path(p, q):
